@@ -24,9 +24,9 @@ mkdir -p out/fuzz
 START=$(date +%s)
 
 # ---- build (both variants) -------------------------------------------------------------------
-( cd fuzz && cargo +nightly fuzz build --sanitizer none --target-dir target-checked $TARGETS ) >out/fuzz/build_checked.log 2>&1 \
+( cd harness && for t in $TARGETS; do cargo +nightly fuzz build --fuzz-dir "$ROOT/fuzz" --sanitizer none --target-dir "$ROOT/fuzz/target-checked" $t || exit 1; done ) >out/fuzz/build_checked.log 2>&1 \
     || { tail -20 out/fuzz/build_checked.log; echo "INCONCLUSIVE: fuzz targets do not build (debug assertions on)"; exit 2; }
-( cd fuzz && cargo +nightly fuzz build -O --sanitizer none --target-dir target-O $TARGETS ) >out/fuzz/build_O.log 2>&1 \
+( cd harness && for t in $TARGETS; do cargo +nightly fuzz build -O --fuzz-dir "$ROOT/fuzz" --sanitizer none --target-dir "$ROOT/fuzz/target-O" $t || exit 1; done ) >out/fuzz/build_O.log 2>&1 \
     || { tail -20 out/fuzz/build_O.log; echo "INCONCLUSIVE: fuzz targets do not build (-O)"; exit 2; }
 
 # ---- run --------------------------------------------------------------------------------------
